@@ -436,6 +436,12 @@ class StmtChecker(AstVisitor[BBStatement]):
                     ctrl[i], subst = self._check_expr(ctrl[i], qubit_ty())
                     assert len(subst) == 0
                 control.qubit_num = len(ctrl)
+            # Controls are borrowed, so subscripted ones have to be written back afterwards
+            for c in ctrl:
+                if isinstance(c, PlaceNode):
+                    c.place = check_place_assignable(
+                        c.place, self.ctx, c, "able to borrow subscripted elements"
+                    )
 
         for power in node.power:
             power.iter, subst = self._check_expr(
